@@ -19,6 +19,8 @@ branches; strconv is a parameter), Aux.Type/Kind/Tag/Value/String and the SAM fo
 fields, bam.parseAux (the aux block walker over bytes, incl. `B` arrays and the `jumps` table).
 -/
 import Hts.Model.Coord
+import Hts.Model.Itf8
+import Hts.Model.Ltf8
 namespace Hts.Model.Decoders
 open Hts.Model.Coord (CigarOp)
 
@@ -514,5 +516,52 @@ def parseAuxLoop : (fuel : Nat) → Bytes → List Bytes → Outcome (List Bytes
 
 def parseAuxBam (aux : Bytes) : Outcome (List Bytes) :=
   if aux.length = 0 then ok [] else parseAuxLoop (aux.length + 1) aux []
+
+/-! ### ITF-8 / LTF-8: the indexing of `Decode` and of the stream readers `errorReader.itf8/ltf8` -/
+
+/-- read `b[k]` for every `k` of the list, in order -/
+def indexAll (site : String) (b : Bytes) : List Nat → Outcome Unit
+  | [] => ok ()
+  | k :: ks =>
+    match index site b k with
+    | ok _ => indexAll site b ks
+    | err => err
+    | .panic s => .panic s
+
+/-- the indexing of `itf8.Decode` / `ltf8.Decode`: `len(b) == 0` and `len(b) < n` return before any
+`b[k]`; the `switch n` arm reads `b[0] .. b[n-1]`.  `width` is the announced width (leading one bits
+of the first byte + 1; Hts.Model.Itf8.width / Ltf8.width, tied to the Go code by Hts.Tie.C20). -/
+def decodeIdx (site : String) (width : UInt8 → Int) (b : Bytes) : Outcome Bool :=
+  if b.length = 0 then ok false
+  else
+    match index site b 0 with
+    | ok b0 =>
+      let n := (width b0).toNat
+      if b.length < n then ok false
+      else
+        match indexAll site b (List.range n) with
+        | ok _ => ok true
+        | err => err
+        | .panic s => .panic s
+    | err => err
+    | .panic s => .panic s
+
+def itf8Width (b0 : UInt8) : Int := Hts.Model.Itf8.width b0.toBitVec
+def ltf8Width (b0 : UInt8) : Int := Hts.Model.Ltf8.width b0.toBitVec
+
+/-- `errorReader.itf8` / `ltf8`: after the first byte, `io.ReadFull(r, buf[1:n])` and `Decode(buf[:n])`
+on a `[bufLen]byte` array (`bufLen` = 5, resp. 9), `n` = announced width.  `true`: got a value. -/
+def streamRead (site : String) (width : UInt8 → Int) (bufLen : Nat) (s : Bytes) : Outcome Bool :=
+  match s with
+  | [] => err
+  | b0 :: rest =>
+    let n := (width b0).toNat
+    if n = 1 then ok true
+    else
+      match slice site (List.replicate bufLen (0 : UInt8)) 1 n, sliceTo site (List.replicate bufLen (0 : UInt8)) n with
+      | ok _, ok _ => if rest.length < n - 1 then err else ok true
+      | .panic s, _ => .panic s
+      | _, .panic s => .panic s
+      | _, _ => err
 
 end Hts.Model.Decoders
